@@ -19,6 +19,8 @@
 #undef thread
 #endif
 #include "wapi.h"
+#include "allocfault.h"
+#include <new>
 #include <iostream>
 #include <mutex>
 #include <unistd.h>
@@ -43,6 +45,7 @@ struct MemFile
 };
 static ssize_t mf_read(void *c, char *buf, size_t n)
 {
+  allocfault::Exempt af_;
   MemFile *m = (MemFile *)c;
   m->reads++;
   if (m->pos >= (long)m->d.size())
@@ -54,6 +57,7 @@ static ssize_t mf_read(void *c, char *buf, size_t n)
 }
 static ssize_t mf_write(void *c, const char *buf, size_t n)
 {
+  allocfault::Exempt af_;
   MemFile *m = (MemFile *)c;
   m->writes++;
   m->written_bytes += n;
@@ -76,6 +80,7 @@ static ssize_t mf_write(void *c, const char *buf, size_t n)
 }
 static int mf_seek(void *c, off64_t *off, int wh)
 {
+  allocfault::Exempt af_;
   MemFile *m = (MemFile *)c;
   long b = wh == SEEK_SET ? 0 : wh == SEEK_CUR ? m->pos : (long)m->d.size();
   long np = b + *off;
@@ -87,6 +92,7 @@ static int mf_seek(void *c, off64_t *off, int wh)
 }
 static int mf_close(void *c)
 {
+  allocfault::Exempt af_;
   ((MemFile *)c)->closed = true;
   return 0;
 }
@@ -108,6 +114,27 @@ void quiet_stdout()
   std::cout.setstate(std::ios::failbit);
 }
 
+#if defined(__has_feature)
+#if __has_feature(thread_sanitizer)
+#define WV_TSAN 1
+#endif
+#endif
+#if defined(__SANITIZE_THREAD__) && !defined(WV_TSAN)
+#define WV_TSAN 1
+#endif
+#ifdef WV_TSAN
+// Real-thread builds under ThreadSanitizer (extra runs of C03 / C14). Each case runs in a forked child that
+// stops at its first report (exit 97) and leaves the report in ./tsanlog.<pid> for the harness to judge.
+extern "C" const char *__tsan_default_options()
+{
+  return "halt_on_error=1:exitcode=97:report_signal_unsafe=0:log_path=tsanlog:second_deadlock_stack=1";
+}
+// buffergroup::turn_iter reads bufferctrl::state without the lock while a worker may be writing
+// READY -> UPDATING in set_update(). The I/O thread only compares with INV, a value only the I/O thread
+// itself ever stores, so the comparison cannot depend on the race. It is in the pinned tree, formally a data
+// race, and outside the listed properties: suppressed so that it can neither mask nor fake a verdict.
+extern "C" const char *__tsan_default_suppressions() { return "race:buffergroup::turn_iter\n"; }
+#endif
 bool has_scheduler()
 {
 #ifdef VS_SHIM
@@ -143,6 +170,7 @@ extern "C" void wv_event(int kind, const void *obj, long a, long b)
     fprintf(stderr, "EV kind=%d obj=%p a=%ld b=%ld\n", kind, obj, a, b);
   if (!g_capture)
     return;
+  allocfault::Exempt af_;
 #ifdef VS_SHIM
   g_events.push_back({kind, vsched::self(), (uint64_t)(uintptr_t)obj, a, b});
 #else
@@ -279,6 +307,7 @@ struct SpecChooser : vsched::Chooser
     default:
       break;
     }
+    allocfault::Exempt af_;
     if (sp.record)
       trace.push_back({(uint8_t)n, (uint8_t)idx, (uint8_t)cur_runnable, (uint8_t)ids[idx]});
     return idx;
@@ -296,6 +325,7 @@ static SpecChooser *g_chooser = nullptr;
 static void fatal_handler(const char *what)
 {
   // runs in the child at the step where the scheduler found a deadlock / exceeded the step bound
+  allocfault::disarm();
   Ser s;
   s.u8(what[0] == 'd' ? 1 : 2);
   vsched::Outcome &o = vsched::current();
@@ -358,7 +388,19 @@ static void with_sched(const PipeCfg &pc, size_t nblocks, OpOut &out, F f)
   vsched::on_fatal = fatal_handler;
   uint64_t maxs = pc.sched.max_steps ? pc.sched.max_steps : 200ull * (nblocks + pc.T + 10);
   vsched::begin(&ch, maxs, false);
-  f();
+  if (pc.fail_new >= -1)
+    allocfault::arm(pc.fail_new);
+  try
+  {
+    f();
+  }
+  catch (const std::bad_alloc &)
+  {
+    out.threw = true; // the operation reported the (injected) allocation failure by exception
+  }
+  allocfault::disarm();
+  out.fault_fired = allocfault::fired();
+  out.allocs_seen = (uint32_t)allocfault::seen();
   vsched::Outcome o = vsched::end();
   g_chooser = nullptr;
   out.sched.steps = o.steps;
@@ -371,7 +413,7 @@ static void with_sched(const PipeCfg &pc, size_t nblocks, OpOut &out, F f)
   out.sched.trace = ch.trace;
 #else
   (void)nblocks;
-  f();
+  f(); // no injected faults on real threads
 #endif
   g_capture = false;
   out.events = g_events;
@@ -493,6 +535,7 @@ public:
   RecMode(const u8_t *iv, int s) : Aesmode(iv), stream(s) {}
   void runcry(u8_t *block) override
   {
+    allocfault::Exempt af_;
 #ifdef VS_SHIM
     int tid = vsched::self();
 #else
@@ -591,6 +634,9 @@ static void ser_op(Ser &s, const OpOut &o)
     s.u64((uint64_t)e.b);
   }
   s.u32((uint32_t)o.live_after);
+  s.u8(o.threw);
+  s.u8(o.fault_fired);
+  s.u32(o.allocs_seen);
 }
 static void de_op(De &d, OpOut &o)
 {
@@ -639,6 +685,9 @@ static void de_op(De &d, OpOut &o)
     o.events.push_back(e);
   }
   o.live_after = (int)d.u32();
+  o.threw = d.u8();
+  o.fault_fired = d.u8();
+  o.allocs_seen = d.u32();
 }
 bytes OpOut::ser() const
 {
@@ -895,21 +944,46 @@ bytes hmac_write(int hmode, const bytes &key, const bytes &file, size_t hash_mar
 
 // ------------------------------------------------------------------------------------------------
 // AES, tables, modes
-void aes_encrypt_block(const uint8_t key[16], uint8_t block[16])
+// `off` (0..15): address residue of the block handed to the library (the pipeline's own blocks are 16-aligned;
+// an API caller's need not be). The bytes around the block are canaries: the call must not touch them.
+static const char *g_canary_msg = nullptr;
+const char *canary_report()
 {
-  alignas(16) u8_t b[16];
-  memcpy(b, block, 16);
-  encryaes e(key);
-  e.runaes_128bit(b);
-  memcpy(block, b, 16);
+  const char *m = g_canary_msg;
+  g_canary_msg = nullptr;
+  return m;
 }
-void aes_decrypt_block(const uint8_t key[16], uint8_t block[16])
+struct OffBlock
 {
-  alignas(16) u8_t b[16];
-  memcpy(b, block, 16);
+  alignas(16) u8_t raw[64];
+  u8_t *p;
+  OffBlock(const uint8_t *block, int off)
+  {
+    memset(raw, 0xA7, sizeof raw);
+    p = raw + 16 + (off & 15);
+    memcpy(p, block, 16);
+  }
+  void out(uint8_t *block)
+  {
+    memcpy(block, p, 16);
+    for (u8_t *q = raw; q < raw + sizeof raw; q++)
+      if ((q < p || q >= p + 16) && *q != 0xA7)
+        g_canary_msg = "bytes outside the 16-byte block were written";
+  }
+};
+void aes_encrypt_block(const uint8_t key[16], uint8_t block[16], int off)
+{
+  OffBlock b(block, off);
+  encryaes e(key);
+  e.runaes_128bit(b.p);
+  b.out(block);
+}
+void aes_decrypt_block(const uint8_t key[16], uint8_t block[16], int off)
+{
+  OffBlock b(block, off);
   decryaes d(key);
-  d.runaes_128bit(b);
-  memcpy(block, b, 16);
+  d.runaes_128bit(b.p);
+  b.out(block);
 }
 const uint8_t *tab_sbox() { return s_box; }
 const uint8_t *tab_rsbox() { return rs_box; }
@@ -939,12 +1013,11 @@ void *mode_new(bool enc, int type, const uint8_t key[16], const uint8_t iv[16])
   }
   return h;
 }
-void mode_run(void *hh, uint8_t block[16])
+void mode_run(void *hh, uint8_t block[16], int off)
 {
-  alignas(16) u8_t b[16];
-  memcpy(b, block, 16);
-  ((ModeH *)hh)->m->runcry(b);
-  memcpy(block, b, 16);
+  OffBlock b(block, off);
+  ((ModeH *)hh)->m->runcry(b.p);
+  b.out(block);
 }
 void mode_free(void *hh)
 {
